@@ -38,6 +38,20 @@ CLAIMED = {
                      "{f | AND over every universal value of Z(c)(f,u) [and Z(d)(f)]} for every enumerated c (mentioning u, the "
                      "free variables, both; comparators, and/or/not), |U| = 1..3, one or two free variables, universal given as "
                      "a variable or an attribute expression, caching on and off, and EVERY data valuation."),
+    "C08": dict(design_ref="DESIGN.md 7/C08",
+                text="Bounded exhaustive exploration of HISTORIES driven through the solver: a vector of H symbolic op-codes "
+                     "(enter/leave query-mode, rule-mode, `with query:` and rule_mode(query) blocks, leave by exception, create / "
+                     "advance / close / drop / exhaust two result iterators) is dispatched by solver-checked forking; after every "
+                     "step in_symbolic_mode(), the mode kind, the expression-context stack and the behaviour of @symbol "
+                     "construction, @predicate calls and symbolic operators are compared with a 6-line reference stack machine. "
+                     "All histories of length <= H (5 quick, 7 thorough) are covered (coverage obligation); no data is involved, so "
+                     "the solver adds no generalisation beyond the bound."),
+    "C09": dict(design_ref="DESIGN.md 7/C09",
+                text="Bounded-exhaustive symbolic execution: each query/rule (an, the, infer, Add-conclusion; @predicate function, "
+                     "Predicate subclass, HasType, bound methods, rule-head construction) is evaluated under ambient mode none / "
+                     "symbolic_mode() / rule_mode() in one path on the same symbolic data; each outcome is proved equal to the "
+                     "reference for EVERY data valuation, user predicates must have been executed and rule heads must be real "
+                     "instances."),
 }
 
 NOT_APPLICABLE = {pid: PENDING for pid in ["C%02d" % i for i in range(1, 21)] if pid not in CLAIMED}
